@@ -261,6 +261,12 @@ def slow(x, d=0.05):
     return ('ok', x)
 
 
+def uneven(x):
+    """the first part takes much longer than the others"""
+    time.sleep(0.5 if x == 0 else 0.01)
+    return ('ok', x)
+
+
 def swallow_then_return(x, d=1.0):
     """a task with its own catch-all handler: a termination signal raised inside it is
     swallowed once; the task then returns promptly"""
